@@ -163,10 +163,19 @@ pub fn generate(check: &str, tier: &str, seed: u64) -> Scenario {
                 cfg.jitter = *cr.pick(&[0.0, 0.3, 1.0]);
                 cfg.trig_frag = *cr.pick(&[0.0, 0.3, 0.6]);
                 cfg.trig_dead = *cr.pick(&[0, 100, u64::MAX]);
+                // let a few check intervals pass now and then (bounded: every tick costs steps)
+                let iv = cfg.check_interval_ms;
                 let m = ops.len();
                 for j in 0..m {
                     if r.one_in(4) {
-                        ops.insert(j, Op::Pass(*r.pick(&[20, 2000, 40_000])));
+                        ops.insert(j, Op::Pass(*r.pick(&[iv / 2 + 1, iv * 2, iv * 3 + 7])));
+                    }
+                }
+                for o in ops.iter_mut() {
+                    if let Op::Pass(ms) = o {
+                        if *ms > iv * 4 {
+                            *ms = iv * 4;
+                        }
                     }
                 }
             }
@@ -207,6 +216,62 @@ pub fn generate(check: &str, tier: &str, seed: u64) -> Scenario {
                 seed,
                 sim: sim_params_seq(&mut cr),
                 body: Body::Store(StoreScn { cfg, keys, threads: vec![ops], fault: None, fault_reads: false, max_crash_points: 0, extra: 0 }),
+            }
+        }
+        "C03" | "C09" => {
+            let mut cfg = store_cfg(&mut cr);
+            cfg.max_file_size = *cr.pick(&[0, 60, 300, 300, 1000, 4096, 20_000, 1 << 20]);
+            cfg.sync = if check == "C09" { SyncCfg::Always } else { SyncCfg::None };
+            let nkeys = cr.range(3, 8) as usize;
+            let keys = pick_keys(&mut cr, nkeys);
+            let big = *cr.pick(&[0, 10, 30]);
+            let n = match r.below(10) {
+                0..=5 => r.range(3, 8) as usize,
+                6..=8 => r.range(8, 16) as usize,
+                _ => r.range(16, 30) as usize,
+            };
+            let mix = OpMix { set: 45, get: 0, del: 20, merge: 15, reopen: 8, retune: 0, pass: 0 };
+            let mut ops = gen_ops(&mut r, n, nkeys, &mix, big, &mut tag);
+            for o in ops.iter_mut() {
+                if let Op::Reopen(w) = o {
+                    *w = true;
+                }
+            }
+            let mut sim = sim_params_seq(&mut cr);
+            sim.latency_pm = 0;
+            Scenario {
+                check: check.to_string(),
+                seed,
+                sim,
+                body: Body::Store(StoreScn { cfg, keys, threads: vec![ops], fault: None, fault_reads: false, max_crash_points: if thorough { 0 } else { 80 }, extra: 0 }),
+            }
+        }
+        "C20" => {
+            let mut cfg = store_cfg(&mut cr);
+            cfg.max_file_size = *cr.pick(&[0, 60, 300, 300, 1000, 4096, 20_000]);
+            cfg.sync = if cr.one_in(2) { SyncCfg::Always } else { SyncCfg::None };
+            let nkeys = cr.range(3, 6) as usize;
+            let keys = pick_keys(&mut cr, nkeys);
+            let big = *cr.pick(&[0, 15, 40]);
+            let n = match r.below(10) {
+                0..=5 => r.range(3, 8) as usize,
+                6..=8 => r.range(8, 14) as usize,
+                _ => r.range(14, 25) as usize,
+            };
+            let mix = OpMix { set: 45, get: 5, del: 20, merge: 15, reopen: 4, retune: 0, pass: 0 };
+            let mut ops = gen_ops(&mut r, n, nkeys, &mix, big, &mut tag);
+            for o in ops.iter_mut() {
+                if let Op::Reopen(w) = o {
+                    *w = true;
+                }
+            }
+            let mut sim = sim_params_seq(&mut cr);
+            sim.latency_pm = 0;
+            Scenario {
+                check: check.to_string(),
+                seed,
+                sim,
+                body: Body::Store(StoreScn { cfg, keys, threads: vec![ops], fault: None, fault_reads: thorough && cr.one_in(2), max_crash_points: if thorough { 0 } else { 40 }, extra: 0 }),
             }
         }
         other => panic!("no generator for check {}", other),
